@@ -1030,7 +1030,11 @@ def c16_base_families(quick):
     seeds += [s for s in c05_families(True) if s.name in ("c05.jmp.nokw.hex", "c05.jne.nokw.neghex", "c05.call.nokw.hex", "c05.jmp.short.hex")]
     import copy
     for s in seeds:
-        for alt in ("dec", "hexz"):
+        for alt in ("dec", "hexz", "decz"):
+            if alt == "decz" and quick and s.name not in (
+                    "c03.add.r.hex", "c03.mov.r64.hex", "c03.mov.m_word_bmd_s1_hex.neghex", "c02.mov.mr.bpd_s1_hex", "c02.mov.mr.bmd_s1_hex",
+                    "c02.lea.rm.bpsximd_s8_hex", "c02.lea.rm.d_s1_hex", "c02.vpaddd.yym.bpixspd_s2_hex", "c05.jmp.nokw.hex", "c05.jne.nokw.neghex"):
+                continue
             sk = copy.deepcopy(s)
             sk.name = "c16.base.%s.vs_%s" % (s.name, alt)
             sk.family = "spelling.base"
